@@ -29,13 +29,14 @@ type c11Ev struct {
 }
 
 type c11St struct {
-	env    map[types.Object]*c11V
-	heap   map[int]*c11Obj
-	as     []c11As
-	ev     []c11Ev
-	defers map[string][]*ast.CallExpr // calls deferred by the frames that are active (by call path)
-	stack  []c11Saved                 // environments of the callers of the function being executed (innermost last)
-	notes  []string                   // imprecision met on this path (unsupported statement, ...): verdicts on such a path are Unknown
+	env     map[types.Object]*c11V
+	heap    map[int]*c11Obj
+	as      []c11As
+	ev      []c11Ev
+	defers  map[string][]*ast.CallExpr // calls deferred by the frames that are active (by call path)
+	stack   []c11Saved                 // environments of the callers of the function being executed (innermost last)
+	escaped map[types.Object]string    // local variables whose address was taken -> call path of the owning frame
+	notes   []string                   // imprecision met on this path (unsupported statement, ...): verdicts on such a path are Unknown
 }
 
 // c11Saved is the environment of a suspended caller frame.
@@ -67,6 +68,12 @@ func (s *c11St) clone() *c11St {
 		n.defers = map[string][]*ast.CallExpr{}
 		for k, v := range s.defers {
 			n.defers[k] = append([]*ast.CallExpr(nil), v...)
+		}
+	}
+	if len(s.escaped) > 0 {
+		n.escaped = make(map[types.Object]string, len(s.escaped))
+		for k, v := range s.escaped {
+			n.escaped[k] = v
 		}
 	}
 	n.as = append([]c11As(nil), s.as...)
